@@ -989,8 +989,10 @@ def expand_state(M, cls, path, st, acc, outcomes):
 def work(item):
     """Observe (and optionally expand) a chunk of states.
     -> (violations, [children bytes per state], counters, outcomes)."""
-    paths, expand = item
-    M, cls = G["M"], G["cls"]
+    if item[0] == "P":
+        return pair_rows(item[1])
+    _tag, cls, paths, expand = item
+    M = G["M"]
     acc = {}
     outcomes = set()
     ncalls = nmut = nontrivial = 0
@@ -1004,7 +1006,7 @@ def work(item):
             k, m = expand_state(M, cls, path, st, acc, outcomes)
             kids.append(k)
             nmut += m
-        if has_group(st) or len(st) >= 2:
+        if any(not isinstance(v, str) and len(v) >= 2 for _k, v in st):
             nontrivial += 1
     return list(acc.values()), kids, (ncalls, nmut, nontrivial), outcomes
 
@@ -1073,58 +1075,94 @@ def pair_expect(si, sj):
     return None, "order_differs"
 
 
-def explore(ctx, M, cls, depth, pair_depth):
-    G["M"], G["cls"] = M, cls
-    seen = {key8(())}
-    level = [()]
-    all_shallow = []
-    tot_states = tot_obs = tot_mut = tot_nontriv = 0
-    per_level = []
-    for d in range(depth + 1):
-        expand = d < depth
-        size = 8 if expand else 96
-        size = max(1, min(size, len(level) // (ctx.workers * 4) or 1))
-        items = [(level[i:i + size], expand) for i in range(0, len(level), size)]
-        res = ctx.pmap(work, items, chunk=1)
-        nxt = []
-        for (paths, _e), (vio, kidlist, (nc, nm, nt), outs) in zip(items, res):
+def pair_rows(rows):
+    acc = {}
+    n = 0
+    outs = set()
+    for i in rows:
+        vio, k, o = pair_work(i)
+        for v in vio:
+            x = acc.get(v["signature"])
+            if x is None:
+                acc[v["signature"]] = v
+            else:
+                x["count"] += v["count"]
+        n += k
+        outs |= o
+    return list(acc.values()), None, (n, 0, 0), outs
+
+
+def explore(ctx, M, plans, pair_depth):
+    """Level-synchronous BFS for several root classes at once (one process pool per level: forking is the
+    expensive part on small levels, so tiny levels run in-process).
+    plans: list of (root class, depth). The all-pairs equality matrix over the states of depth <= pair_depth of
+    the first plan is evaluated together with level pair_depth+1."""
+    G["M"] = M
+    exps = [{"cls": cls, "depth": depth, "seen": {key8(())}, "level": [()], "per_level": []}
+            for cls, depth in plans]
+    shallow = []
+    tot_states = tot_obs = tot_mut = tot_nontriv = tot_pair = 0
+    for d in range(max(depth for _c, depth in plans) + 1):
+        items = []
+        owners = []
+        n_expand = n_leaf = 0
+        for e in exps:
+            if d > e["depth"]:
+                continue
+            level = e["level"]
+            expand = d < e["depth"]
+            size = 8 if expand else 96
+            size = max(1, min(size, len(level) // (ctx.workers * 4) or 1))
+            for i in range(0, len(level), size):
+                items.append(("S", e["cls"], level[i:i + size], expand))
+                owners.append(e)
+            if expand:
+                n_expand += len(level)
+            else:
+                n_leaf += len(level)
+            e["next"] = []
+        if d == pair_depth + 1:
+            states = [model_state(M, p) for p in shallow]
+            G["pair_states"] = states
+            G["pair_objs"] = [rebuild(M, "FIXContainer" if i % 2 else "FIXMessage", p)
+                              for i, p in enumerate(shallow)]
+            G["pair_dicts"] = [as_dict(st) for st in states]
+            for i in range(0, len(states), 8):
+                items.append(("P", list(range(i, min(i + 8, len(states))))))
+                owners.append(None)
+        if n_expand <= 40 and n_leaf <= 1500 and not (d == pair_depth + 1):
+            res = [work(x) for x in items]
+        else:
+            res = ctx.pmap(work, items, chunk=1)
+        for item, e, (vio, kidlist, (nc, nm, nt), outs) in zip(items, owners, res):
             if vio:
                 ctx.merge_violations(vio)
+            ctx.outcomes.update(outs)
+            if e is None:
+                tot_pair += nc
+                continue
             tot_obs += nc
             tot_mut += nm
             tot_nontriv += nt
-            ctx.outcomes.update(outs)
-            for p, kids in zip(paths, kidlist):
+            seen, nxt = e["seen"], e["next"]
+            for p, kids in zip(item[2], kidlist):
                 for o in range(0, len(kids), 10):
                     h = kids[o:o + 8]
                     if h not in seen:
                         seen.add(h)
                         nxt.append(p + (kids[o + 8] | (kids[o + 9] << 8),))
-        tot_states += len(level)
-        per_level.append(len(level))
-        if d <= pair_depth:
-            all_shallow.extend(level)
-        level = nxt
-    ctx.count(states=tot_states, transitions=tot_mut, evaluations=tot_obs + tot_mut, traces=tot_states + tot_mut,
-              nontrivial=tot_nontriv, observer_calls=tot_obs)
-    return per_level, all_shallow
-
-
-def pairs(ctx, M, shallow_paths):
-    states = [model_state(M, p) for p in shallow_paths]
-    G["M"] = M
-    G["pair_states"] = states
-    G["pair_objs"] = [rebuild(M, "FIXContainer" if i % 2 else "FIXMessage", p) for i, p in enumerate(shallow_paths)]
-    G["pair_dicts"] = [as_dict(s) for s in states]
-    res = ctx.pmap(pair_work, list(range(len(states))), chunk=8)
-    n = 0
-    for vio, k, outs in res:
-        if vio:
-            ctx.merge_violations(vio)
-        n += k
-        ctx.outcomes.update(outs)
-    ctx.count(evaluations=n, pair_comparisons=n)
-    return len(states)
+        for e in exps:
+            if d > e["depth"]:
+                continue
+            tot_states += len(e["level"])
+            e["per_level"].append(len(e["level"]))
+            if e is exps[0] and d <= pair_depth:
+                shallow.extend(e["level"])
+            e["level"] = e.pop("next")
+    ctx.count(states=tot_states, transitions=tot_mut, evaluations=tot_obs + tot_mut + tot_pair,
+              traces=tot_states + tot_mut, nontrivial=tot_nontriv, observer_calls=tot_obs,
+              pair_comparisons=tot_pair)
+    return [e["per_level"] for e in exps], shallow
 
 
 def run(ctx):
@@ -1138,7 +1176,8 @@ def run(ctx):
         "get_group_list, get_group_by_index, get_group_by_tag, query, items, pickle, == with derived containers and "
         "dicts with/without framing tags) are applied under every spelling; every mutator variant is executed on a "
         "fresh real object and the real state is read back and compared; plus the full equality matrix over all "
-        "states of depth <= 2. non-trivial = state with a repeating group or at least two tags"
+        "states of depth <= 2. On the deepest level the equality observers use one derived second operand per kind "
+        "instead of one per tag. non-trivial = state holding a repeating group with at least two items"
     )
     ctx.bounds = {
         "depth_FIXMessage": depth, "depth_FIXContainer": depth - 1, "mutator_variants_per_state": len(M.OPS),
@@ -1146,12 +1185,10 @@ def run(ctx):
         "group_items": [M.item_src(i, 0) for i in range(len(M.ITEMS))], "nesting": 1,
         "pair_matrix_depth": 2,
     }
-    lv1, shallow = explore(ctx, M, "FIXMessage", depth, 2)
-    lv2, _ = explore(ctx, M, "FIXContainer", depth - 1, -1)
+    (lv1, lv2), shallow = explore(ctx, M, [("FIXMessage", depth), ("FIXContainer", depth - 1)], 2)
     ctx.bounds["states_per_level_FIXMessage"] = lv1
     ctx.bounds["states_per_level_FIXContainer"] = lv2
-    npair = pairs(ctx, M, shallow)
-    ctx.bounds["pair_matrix_states"] = npair
+    ctx.bounds["pair_matrix_states"] = len(shallow)
     for p in (shallow[1:2] + shallow[40:41] + shallow[300:301] + shallow[-1:]):
         ctx.sample({"history": [M.describe(M.OPS[i]) for i in p], "model_state": model_state(M, p)})
     ctx.assumptions += [
